@@ -49,7 +49,7 @@ ROUTES = ["StopgapMotl(df).write_out", "StopgapMotl(StopgapMotl).write_out", "Mo
 
 def plan(tier):
     if tier == "quick":
-        return dict(n_cases=len(CLASSES) * 4 * 7, shards=2, classes=CLASSES, timeout_s=600,
+        return dict(n_cases=len(CLASSES) * 4 * 7, shards=4, classes=CLASSES, timeout_s=600,
                     min_evals={"sg_export": 800, "sg_import": 1300, "write_out_file": 450, "star_fields": 450,
                                "star_halfset_idx": 450, "update_coord": 700, "star_reload": 900, "inmem_roundtrip": 350,
                                "converters": 550})
